@@ -78,6 +78,11 @@ Definition run_case (c : list sx) : list sx :=
         [Str text; Lst (map (fun p => Lst [Str (fst p); Str (snd p)]) (C18.Model.parse_qsl text))]
       else if str_eqb kind (lit "imm") then
         let v := show_views (init (rd_pairs items)) in [v; v; v]
+      else if str_eqb kind (lit "rawx") then
+        (* a raw query string with percent-escapes outside the modelled part of parse_qsl (>= %80, invalid UTF-8):
+           the model says only what the property says - a query mapping parsed from its own string form equals
+           itself; the harness evaluates that on the implementation *)
+        [tag (lit "roundtrip-holds")]
       else [tag (lit "badcase")]
   | _ => [tag (lit "badcase")]
   end.
